@@ -12,6 +12,10 @@ package dkg
 // Map iteration order is pinned (rotation 0 / 1, runtime overlay) or left stock-random, cyclically over
 // the cases. Thorough tier only: the same oracle on the result of the complete dkg.Run (lock files and
 // keystores on disk) for (n,t) in {(3,2),(4,3)}.
+//
+// Part two (zz_verif_c11tp_test.go): the same oracle with the PRODUCTION transport in the loop (real
+// bcast.Component and newFrostP2P on an in-memory host) under an exhaustively enumerated delivery alphabet
+// (duplicates, reorderings, late starters, concurrently repeated deliveries).
 
 import (
 	"context"
@@ -275,6 +279,7 @@ type c11Outcome struct {
 	copies    int  // repeated deliveries (same bytes) handed to a real handler
 	earlyR2   int  // round 2 broadcasts handed to a recipient that was still in round 1
 	netOdd    int  // sends the harness network could not classify / saw twice
+	buffered  int  // messages handed to the callbacks of a node that had not yet started the ceremony
 }
 
 // firstErr returns the root cause if there is one (not the "peer failed" echo seen by the other nodes).
